@@ -119,11 +119,22 @@ def overlapping_reference_shapes():
             bf['input']['kids']['deps']['kids']['stage'] = ref('steps.a.outputs')
         if variant == 3:
             bf['wait_for'] = tmap({'w1': ref('steps.a.starting'), 'w2': ref('steps.a.starting.started'), 'w3': ref('steps.a.outputs.success.n')})
+        if variant in (1, 3):
+            # ONE expression reading two different nodes of the same step (the one that resolves first is named first)
+            from vlib import fexpr
+            bf['input']['kids']['deps']['kids']['both'] = fexpr('$.steps.a.enabling.resolved.enabled && $.steps.a.outputs.success.tok != ""',
+                                                                ['steps.a.enabling.resolved.enabled', 'steps.a.outputs.success.tok'])
         wf = {'steps': {'a': a, 'b': {'kind': 'plugin', 'pstep': 'work', 'fields': bf}},
               'outputs': {'success': tmap({'whole': ref('steps.a.outputs'), 'one': ref('steps.a.outputs.success'), 'field': ref('steps.a.outputs.success.tok'),
                                            'b': ref('steps.b.outputs.success.tok')}),
                           'failure': tmap({'stage': ref('steps.a.outputs'), 'why': ref('steps.a.outputs.error.reason')})}}
         out.append(wf)
+    # the same expression standing alone: nothing else connects the consumer to the producer's later node
+    from vlib import fexpr
+    for first, second in [('steps.a.enabling.resolved.enabled', 'steps.a.outputs.success.tok'), ('steps.a.enabling.resolved.enabled', 'steps.a.outputs.error.reason')]:
+        e = fexpr('boolToString($.%s) + $.%s' % (first, second), [first, second])
+        out.append({'steps': {'a': a, 'b': {'kind': 'plugin', 'pstep': 'work', 'fields': {'input': tmap({'id': lit('b'), 'deps': tmap({'both': e})})}}},
+                    'outputs': {'success': tmap({'b': ref('steps.b.outputs.success.tok')}), 'direct': tmap({'both': e})}})
     return out
 
 
